@@ -153,6 +153,18 @@ pub proof fn lemma_fm_char(w: World, t: int, lim: int)
         lemma_fm_char(w, t + 1, lim);
     }
 }
+/// the `@trusted` contract of `find_bit_in_bucket` in the "least position" form the Kani harness asserts
+pub proof fn lemma_fbb_char(s: Seq<u32>, t: int)
+    requires 0 <= t,
+    ensures
+        match fbb(s, t) {
+            Some(p) => t <= p < s.len() * 32 && sbit(s, p) && forall|j: int| t <= j < p ==> !#[trigger] sbit(s, j),
+            None => forall|j: int| t <= j ==> !#[trigger] sbit(s, j),
+        },
+    decreases s.len() * 32 - t
+{
+    if t < s.len() * 32 && !sbit(s, t) { lemma_fbb_char(s, t + 1); }
+}
 pub proof fn lemma_fm_unique(w: World, t: int, lim: int, m: int)
     requires 0 <= t <= m < lim, m <= u32::MAX, bit(w, m as u32), forall|j: int| t <= j < m ==> !#[trigger] bit(w, j as u32),
     ensures first_mark(w, t, lim) == Some(m),
